@@ -380,9 +380,58 @@ def run(ctx):
     exec_domain = [v for v in exectypes.values()] + [0]
     points = 0
 
+    # guard clauses in front of the table dispatch (`if <test over the parameters>: return None / return msg_status / raise FIXError`)
+    # are part of the function: evaluated first, in order, over the same finite domain
+    p_status, p_kind, p_exec, p_msgstatus, p_raise = params
+    preludes = []
+    for st in fn.body[:fn.body.index(chain)]:
+        if isinstance(st, ast.If) and not st.orelse and len(st.body) == 1:
+            b = st.body[0]
+            names = {x.id for x in ast.walk(st.test) if isinstance(x, ast.Name)}
+            if not names & {p_status, p_kind, p_exec, p_msgstatus}:
+                continue
+            if isinstance(b, ast.Return):
+                v = I if (b.value is None or (isinstance(b.value, ast.Constant) and b.value.value is None)) else (T if unparse(b.value) == p_msgstatus else None)
+            elif isinstance(b, ast.Raise) and b.exc is not None and "FIXError" in unparse(b.exc):
+                v = E
+            else:
+                v = None
+            if v is None:
+                raise AnalysisError(f"{FN}: guard clause `{short(st)}` in front of the dispatch is not understood")
+            preludes.append((st.test, v))
+    kinds_enum = fold.enum_members("FMsg")
+
+    def _ev(e, env):
+        if isinstance(e, ast.BoolOp):
+            vals = [_ev(v, env) for v in e.values]
+            return all(vals) if isinstance(e.op, ast.And) else any(vals)
+        if isinstance(e, ast.UnaryOp) and isinstance(e.op, ast.Not):
+            return not _ev(e.operand, env)
+        if isinstance(e, ast.Compare) and len(e.ops) == 1:
+            def val(x):
+                v = env[x.id] if isinstance(x, ast.Name) and x.id in env else fold.fold(x)
+                return Folder.val(v) if isinstance(v, EnumVal) else v
+            a, op, b = e.left, e.ops[0], e.comparators[0]
+            if isinstance(op, (ast.In, ast.NotIn)):
+                coll = b.args[0] if isinstance(b, ast.Call) and unparse(b.func) in ("frozenset", "set", "tuple") and b.args else b
+                if not isinstance(coll, (ast.Tuple, ast.List, ast.Set)):
+                    raise AnalysisError(f"{FN}: membership test `{short(e)}` over a non-literal collection")
+                r = any(val(a) == val(x) for x in coll.elts)
+                return r if isinstance(op, ast.In) else not r
+            if isinstance(op, (ast.Eq, ast.Is)):
+                return val(a) == val(b)
+            if isinstance(op, (ast.NotEq, ast.IsNot)):
+                return val(a) != val(b)
+        raise AnalysisError(f"{FN}: guard test `{short(e)}` is not understood")
+
     def verdict_at(kind, cur, ex, ms):
         nonlocal points
         points += 1
+        if preludes:
+            env = {p_status: statuses[cur], p_kind: kinds_enum[kind], p_exec: ex, p_msgstatus: statuses[ms]}
+            for test, v in preludes:
+                if _ev(test, env):
+                    return v
         try:
             return _verdict(lookup(tables[kind][0], statuses[cur], ex, statuses[ms]))
         except KeyError:
